@@ -303,6 +303,43 @@ pub fn run(ctx: &'static Ctx) {
             }
         }
     }
+    // the same under containers with a BODY (the name must survive whatever the container does to make room for a wider
+    // PkgLength): bodies of 0..=70 bytes and around 4096 / 2^20
+    {
+        let bodies: Vec<usize> = (0..=70usize).chain([4080, 4090, 4096, 4100, (1 << 20) - 20, (1 << 20) - 8]).collect();
+        for c in 1..=3usize {
+            for rooted in [false, true] {
+                let segs: Vec<[u8; 4]> = (0..c).map(|i| seg(i + 90)).collect();
+                let s = path_string(rooted, &segs);
+                let mut want = vec![];
+                name_encode(rooted, &segs, &mut want);
+                for n in &bodies {
+                    let child = "k".repeat(*n);
+                    let kid: &dyn Aml = &child;
+                    let objs: Vec<(&str, Vec<u8>, usize)> = vec![
+                        ("Scope::raw", Scope::raw(Path::new(&s), ser(kid)), 1),
+                        ("Scope", ser(&Scope::new(Path::new(&s), vec![kid])), 1),
+                        ("Device", ser(&Device::new(Path::new(&s), vec![kid])), 2),
+                        ("Method", ser(&Method::new(Path::new(&s), 0, false, vec![kid])), 1),
+                        ("PowerResource", ser(&PowerResource::new(Path::new(&s), 0, 0, vec![kid])), 2),
+                    ];
+                    for (kind, b, ol) in objs {
+                        let off = ol + pkg_decode(&b[ol..]).map(|x| x.1).unwrap_or(1);
+                        named += 1;
+                        ctx.tr(1);
+                        if b.len() < off + want.len() || b[off..off + want.len()] != want[..] {
+                            ctx.violation_sized(
+                                &format!("name:under:{}:with-body", kind),
+                                *n as u64,
+                                || format!("{} named {:?} with a {}-byte child: bytes at {} are {} ; NameString form is {}", kind, s, n + 2, off, hex(&b[off.min(b.len())..(off + want.len()).min(b.len())]), hex(&want)),
+                                || json!({"family":"name-under","kind":kind,"path":s,"body":n}),
+                            );
+                        }
+                    }
+                }
+            }
+        }
+    }
     ctx.engine("E3.named-objects", json!({"objects": named, "constructors": 12}));
     ctx.st(n.load(Ordering::Relaxed) + m + bad + named);
     ctx.force_sample(json!({"path": "\\_SB_.PCI0.LNKA", "expected": "5c 2f 03 5f53425f 50434930 4c4e4b41"}));
